@@ -161,7 +161,7 @@ int main(int argc, char **argv) {
         c.ops.insert(c.ops.end(), tail.begin(), tail.end());
         return c;
     });
-    bool ok = run_cases(a, ev, "c09-pairs", a.n(30000, 600000), 100, gen, run);
+    bool ok = run_cases(a, ev, "c09-pairs", a.n(60000, 800000), 100, gen, run);
     ev.write(a.out);
     return ok ? 0 : 1;
 }
